@@ -51,9 +51,10 @@ func partyIdent(p *Party) mIdent {
 
 // pendingAuto describes an update the victim is waiting to accept automatically.
 type pendingAuto struct {
-	Kind string // "fund" | "settle"
-	ID   channel.ID
-	Bals channel.Balances // balances of the funded / settled channel
+	Kind     string // "fund" | "settle" (sub-channel), "vfund" | "vsettle" (virtual channel, victim = hub)
+	ID       channel.ID
+	Bals     channel.Balances // balances of the funded / settled channel
+	IndexMap []channel.Index  // virtual channel: participant of the virtual channel -> participant of this parent
 }
 
 // mScene is the situation at the end of the set-up phase.
@@ -73,6 +74,14 @@ type mScene struct {
 	realSettle *client.ChannelUpdateMsg
 	subFinal   *channel.State // final state of the sub-channel that is being settled
 	holdM      bool           // keep dropping M's own parent updates during the adversarial phase
+	ledMoved   bool           // hub points: the victim accepted a crafted update of its channel with M (the real M did not: no probe there)
+	// hub points: the victim is the hub between M (Alice) and the honest real client B (Bob)
+	B          *Party
+	ledB       *client.Channel                             // V's ledger channel with B
+	mledB      *client.Channel                             // B's side of it
+	realVFund  *client.VirtualChannelFundingProposalMsg    // M's real funding proposal to the hub (intercepted)
+	realVSet   *client.VirtualChannelSettlementProposalMsg // M's real settlement proposal to the hub (intercepted)
+	bobSent    bool                                        // B's own funding / settlement proposal is on its way to the hub
 	threadErrs []string
 	seq        byte
 	views      map[channel.ID]*mChanView // the victim's channels at the start of the adversarial phase
@@ -87,6 +96,9 @@ func (sc *mScene) snapshot() {
 	}
 	if sc.led != nil {
 		add(sc.led)
+	}
+	if sc.ledB != nil {
+		add(sc.ledB)
 	}
 	for _, c := range sc.vsubs {
 		add(c)
@@ -170,11 +182,11 @@ func isParentUpdateFrom(w *World, e *wire.Envelope, who int, id channel.ID) (*cl
 	if w.partyOf(e.Sender) != who {
 		return nil, false
 	}
-	m, ok := e.Msg.(*client.ChannelUpdateMsg)
-	if !ok || m.State.ID != id {
+	m, ok := e.Msg.(client.ChannelUpdateProposal)
+	if !ok || m.Base().State.ID != id {
 		return nil, false
 	}
-	return m, true
+	return m.Base(), true
 }
 
 // setup drives the world to the history point sc.Pt under the default schedule.
@@ -286,9 +298,132 @@ func (sc *mScene) setup() error {
 			}
 		})
 		vsched.Sleep(time.Second)
+	case "hub-fund", "hub-fund2", "hub-settle", "hub-settle2":
+		return sc.setupHub(base)
 	default:
 		return fmt.Errorf("unknown history point %q", pt)
 	}
+	return nil
+}
+
+// virtBals are the initial balances of the virtual channel Alice (M) <-> Bob (B) at the hub points.
+var virtBals = []int64{5, 3}
+
+// setupHub: the victim is the hub. M and B each have a ledger channel with it (both as index 0);
+// M proposes a virtual channel to B, B accepts. hub-fund: M's funding proposal to the hub is
+// intercepted, B's is on its way. hub-settle: the virtual channel is opened honestly, M pays 2, the
+// channel is finalised and both ends settle; M's settlement proposal to the hub is intercepted.
+func (sc *mScene) setupHub(base string) error {
+	w := sc.w
+	sc.B = w.P[2]
+	var err error
+	if sc.mledB, sc.ledB, err = w.OpenLedger(2, 0, 10, 10); err != nil {
+		return fmt.Errorf("opening the ledger channel B - hub: %w", err)
+	}
+	if strings.HasSuffix(base, "2") { // the parent M - hub already holds a sub-channel
+		if err := sc.addSub(); err != nil {
+			return err
+		}
+	}
+	settle := strings.HasPrefix(base, "hub-settle")
+	sc.holdM = true
+	armed := !settle // hub-settle: the funding runs honestly, interception starts with the settlement
+	w.Bus.Drop = func(e *wire.Envelope) bool {
+		switch m := e.Msg.(type) {
+		case *client.VirtualChannelFundingProposalMsg:
+			if !armed {
+				if w.partyOf(e.Sender) == sc.M.Idx && sc.realVFund == nil {
+					sc.realVFund = m // kept for its initial state and signatures
+				}
+				return false
+			}
+			if w.partyOf(e.Sender) == sc.B.Idx {
+				sc.bobSent = true
+				return false
+			}
+			if w.partyOf(e.Sender) == sc.M.Idx {
+				if sc.realVFund == nil {
+					sc.realVFund = m
+				}
+				return true
+			}
+		case *client.VirtualChannelSettlementProposalMsg:
+			if w.partyOf(e.Sender) == sc.B.Idx {
+				sc.bobSent = true
+				return false
+			}
+			if w.partyOf(e.Sender) == sc.M.Idx {
+				if sc.realVSet == nil {
+					sc.realVSet = m
+				}
+				return true
+			}
+		}
+		return false
+	}
+	// B accepts the virtual channel inside its handler (the parent stays locked), with a long context
+	sc.B.OnProposal = func(p *Party, cp client.ChannelProposal, r *client.ProposalResponder) {
+		ctx, cancel := context.WithTimeout(context.Background(), 30*time.Second)
+		defer cancel()
+		if _, err := r.Accept(ctx, cp.(*client.VirtualChannelProposalMsg).Accept(p.Addr, p.nextNonce())); err != nil {
+			sc.threadErrs = append(sc.threadErrs, "B accept virtual channel: "+err.Error())
+		}
+	}
+	prop, err := client.NewVirtualChannelProposal(60, sc.M.Addr, mAlloc(w.Asset, virtBals...),
+		[]map[wallet.BackendID]wire.Address{sc.M.WireID, sc.B.WireID},
+		[]channel.ID{sc.mled.ID(), sc.mledB.ID()}, [][]channel.Index{{0, 1}, {1, 0}}, sc.M.nextNonce())
+	if err != nil {
+		return err
+	}
+	prop.ProposalID = mFixedID(0xBE)
+	// index map of the parent M - hub: Alice is M (index 0), Bob is represented by the hub (index 1)
+	wantMap := []channel.Index{0, 1}
+	if !settle {
+		vsched.GoNamed("m-propose-virtual", func() {
+			ctx, cancel := context.WithTimeout(context.Background(), 30*time.Second)
+			defer cancel()
+			if _, err := sc.M.C.ProposeChannel(ctx, prop); err != nil {
+				sc.threadErrs = append(sc.threadErrs, "M propose virtual channel: "+err.Error())
+			}
+		})
+		vsched.WaitCond("await-funding-proposals", func() bool { return sc.realVFund != nil && sc.bobSent })
+		sc.pend = append(sc.pend, pendingAuto{Kind: "vfund", ID: sc.realVFund.Initial.State.ID,
+			Bals: sc.realVFund.Initial.State.Balances.Clone(), IndexMap: wantMap})
+		return nil
+	}
+	// hub-settle
+	ctx, cancel := context.WithTimeout(context.Background(), 30*time.Second)
+	defer cancel()
+	nb := len(sc.B.Chans)
+	va, err := sc.M.C.ProposeChannel(ctx, prop)
+	if err != nil {
+		return fmt.Errorf("opening the virtual channel: %w", err)
+	}
+	vsched.WaitCond("await-virtual-channel", func() bool { return len(sc.B.Chans) > nb })
+	vb := sc.B.Chans[len(sc.B.Chans)-1]
+	if err := va.Update(ctx, pay(0, 2, false)); err != nil {
+		return fmt.Errorf("virtual channel payment: %w", err)
+	}
+	if err := va.Update(ctx, func(s *channel.State) { s.IsFinal = true }); err != nil {
+		return fmt.Errorf("virtual channel final update: %w", err)
+	}
+	fin := vb.State().Clone()
+	sc.snapshot()
+	for _, x := range []struct {
+		name string
+		ch   *client.Channel
+	}{{"M", va}, {"B", vb}} {
+		x := x
+		vsched.GoNamed("settle-virtual-"+x.name, func() {
+			ctx, cancel := context.WithTimeout(context.Background(), 30*time.Second)
+			defer cancel()
+			if err := x.ch.Settle(ctx, false); err != nil {
+				sc.threadErrs = append(sc.threadErrs, x.name+" settle virtual channel: "+err.Error())
+			}
+		})
+	}
+	vsched.WaitCond("await-settlement-proposals", func() bool { return sc.realVSet != nil && sc.bobSent })
+	sc.pend = append(sc.pend, pendingAuto{Kind: "vsettle", ID: fin.ID, Bals: fin.Balances.Clone(), IndexMap: wantMap})
 	return nil
 }
 
@@ -454,9 +589,13 @@ func (sc *mScene) probe() (out []mProbeRes) {
 		err := ch.Update(ctx, pay(int(ch.Idx()), 1, false))
 		out = append(out, mProbeRes{what, classify(err)})
 	}
-	if sc.led != nil && !strings.HasPrefix(sc.Pt, "final") {
+	if sc.led != nil && !strings.HasPrefix(sc.Pt, "final") && !sc.ledMoved {
 		one("update of the ledger channel proposed by M", sc.mled)
 		one("update of the ledger channel proposed by V", sc.led)
+	}
+	if sc.ledB != nil {
+		one("update of the ledger channel with B proposed by B", sc.mledB)
+		one("update of the ledger channel with B proposed by V", sc.ledB)
 	}
 	for i := range sc.vsubs {
 		one(fmt.Sprintf("update of sub-channel %d proposed by M", i), sc.msubs[i])
